@@ -1,14 +1,41 @@
-"""C16 - decided by spec/PonySession.tla: TLC checks the specification's invariants and action properties
-exhaustively in the bounded model; behaviours of the exported state graph are replayed into the real ORM on
-SQLite (harness/session.py) and this property's comparator decides (see harness/session_check.py)."""
-from .. import session_check, session_replay
+"""C16 - flush emits writes in an order the database accepts.
+
+Part 1 (spec/PonySession.tla): in every replayed behaviour the commit of pending creations, updates and deletions
+(objects created before the object they reference, references re-pointed after creation, deletes mixed with
+creates) must succeed under SQLite's immediately enforced foreign keys whenever the specification's view is well
+formed. Part 2 (spec/PonyCycle.tla): two entities referencing each other through two relationships; when the
+references among newly created objects form a cycle the flush must raise and commit nothing (or break the cycle and
+commit everything), when they do not, it must succeed in whatever order the program created and re-pointed them.
+"""
+from .. import session_check, session_replay, cycle_c16
 
 LEVEL = 'model_checking'
 
 
 def run(ctx):
-    session_check.run(ctx, 'C16')
+    quick = ctx.tier == 'quick'
+    session_check.run(ctx, 'C16', shapes=['o2m_req_casc', 'o2m_opt', 'o2o_req', 'm2m', 'mix_req_nocasc'] if quick else None)
+    res, stats, found, nedges, nvisited = cycle_c16.run(ctx, 1500 if quick else 10000, 6 if quick else 7, (1, 2), ctx.seed)
+    for what, trace in found:
+        last = trace[-1] if trace else {}
+        ctx.mismatch('C16:cycle:%s:pony=%s' % (last.get('op'), last.get('out')), what, {'cycle_trace': trace})
+    ctx.coverage['states'] += res.distinct
+    ctx.coverage['transitions'] += res.generated
+    ctx.coverage['traces_validated_against_impl'] += stats['behaviours']
+    ctx.coverage['cycle_model'] = dict(stats, graph_transitions=nedges, graph_transitions_replayed=nvisited)
 
 
 def replay(ctx, rep):
+    if 'cycle_trace' in rep:
+        import random
+        w = cycle_c16.World(ctx.scratch.path('db', 'cycle.sqlite'))
+        w.reset()
+        st = {'objs': {}}
+        for t in rep['cycle_trace']:
+            if t['out'] == 'crash':
+                break
+            print(t, '->', cycle_c16.execute(w, st, t, random.Random(0)))
+        print('database:', w.dump())
+        ctx.violations.append('replayed')
+        return
     session_replay.replay(ctx, rep)
